@@ -200,3 +200,37 @@ func VerifHarness_C16_ReloadOther() {
 	verifAssert(st.TotalSearches == len(other.Entries), "C16: statistics agree with the stored entries")
 	verifReach("roundtrip")
 }
+
+// consecutive queries that differ only in letter case are different searches
+func VerifHarness_C16_CaseRepeat() {
+	sh := NewSearchHistory("/nowhere", 10)
+	first := []string{"ls -R", "Kelvin", "abc"}[verifIntRange("first", 0, 2)]
+	second := []string{"ls -r", "kelvin", "abc", "ABC"}[verifIntRange("second", 0, 3)]
+	sh.AddEntry(first, 1, "", time.Millisecond)
+	sh.AddEntry(second, 1, "", time.Millisecond)
+	want := 2
+	if first == second {
+		want = 1
+	}
+	verifAssert(len(sh.Entries) == want, "C16: the log holds the most recent searches, immediate repeats (of the same query) collapsed")
+	verifAssert(sh.GetStats().TotalSearches == want, "C16: statistics count every entry")
+	verifReach("stepped")
+}
+
+// more distinct queries than any default limit
+func VerifHarness_C16_ManyDistinct() {
+	n := verifIntRange("n", 9, 12)
+	var entries []SearchEntry
+	for i := 0; i < n; i++ {
+		entries = append(entries, SearchEntry{Query: "q" + string(rune('a'+i)), Timestamp: time.Unix(int64(1000+i), 0), ResultsCount: 1, Duration: 5})
+	}
+	sh := NewSearchHistory("/nowhere", 100)
+	sh.Entries = entries
+	st := sh.GetStats()
+	verifAssert(st.TotalSearches == n, "C16: statistics count every entry")
+	verifAssert(st.UniqueQueries == n, "C16: statistics count distinct queries")
+	verifAssert(len(sh.GetRecentQueries(n)) == n, "C16: recent queries are the distinct queries, newest first, up to the limit (count)")
+	top := sh.GetTopQueries(n)
+	verifAssert(len(top) == n, "C16: top queries respect the limit")
+	verifReach("views")
+}
